@@ -77,7 +77,7 @@ pub fn res_alphabet(full: bool) -> Vec<ResSpec> {
         for md in 0..3 {
             for env in [None, Some(1u8), Some(2), Some(3)] {
                 for execd in 0..2 {
-                    for sbom in 0..2 {
+                    for sbom in 0..3 {
                         v.push(ResSpec { md, env, execd, sbom });
                     }
                 }
@@ -88,7 +88,7 @@ pub fn res_alphabet(full: bool) -> Vec<ResSpec> {
         vec![
             ResSpec { md: 0, env: None, execd: 0, sbom: 0 },
             ResSpec { md: 1, env: Some(1), execd: 1, sbom: 1 },
-            ResSpec { md: 0, env: Some(3), execd: 0, sbom: 1 },
+            ResSpec { md: 0, env: Some(3), execd: 0, sbom: 2 },
             ResSpec { md: 1, env: Some(2), execd: 1, sbom: 0 },
             ResSpec { md: 0, env: Some(1), execd: 0, sbom: 0 },
             ResSpec { md: 1, env: None, execd: 1, sbom: 1 },
@@ -207,8 +207,7 @@ impl<M: Meta2> Script<M> {
         if spec.execd == 1 {
             b = b.exec_d_program("p1", self.src.join("p1"));
         }
-        if spec.sbom == 1 {
-            let (f, _, d) = sbom_value(1).remove(0);
+        for (f, _, d) in sbom_value(spec.sbom) {
             b = b.sbom(Sbom::from_bytes(f, d));
         }
         b.build_unwrapped()
@@ -568,8 +567,7 @@ pub fn step(snap: &Snapshot, op: &Op, results: &[ResSpec], verbose: bool) -> St 
                         if spec.execd == 1 {
                             l.execd.insert(b"p1".to_vec(), (true, src_content("p1")));
                         }
-                        if spec.sbom == 1 {
-                            let (_, ext, d) = sbom_value(1).remove(0);
+                        for (_, ext, d) in sbom_value(spec.sbom) {
                             l.sboms.insert(ext.to_string(), d);
                         }
                         let marker = if *updated { "updated" } else { "created" };
@@ -655,6 +653,8 @@ fn seed_ops() -> Vec<(&'static str, Vec<Op>)> {
         ("rich cached a, restored", vec![h(0, 0, MKind::Generic, 1), Op::Restore]),
         ("rich cached a + launch-only b, restored", vec![h(0, 1, MKind::V1, 1), h(1, 2, MKind::Generic, 3), Op::Restore]),
         ("cached a with legacy metadata, restored", vec![h(0, 0, MKind::Generic, 5), Op::Restore]),
+        // the lifecycle brings a launch-only layer's toml AND its SBOM files back, not its directory
+        ("launch-only b with an SBOM, restored", vec![h(1, 2, MKind::Generic, 1), Op::Restore]),
     ]
 }
 
@@ -712,7 +712,7 @@ pub fn run(args: &Args) {
     rep.cov("distinct_nontrivial", total_states.saturating_sub(5));
     rep.cov("max_depth", if args.thorough() { 3 } else { 2 });
     rep.cov("rule", "transitions = real handle_layer executions (scripted Layer impl) from distinct layers-dir snapshots, BFS from 5 seeded states built by real handle_layer calls; each judged for callbacks invoked (kind, order, count, arguments incl. LayerData vs disk, create on empty dir), result, on-disk layer vs callback result / kept state, returned LayerData vs an independent read, other layer untouched; distinct_nontrivial = distinct non-seed states");
-    rep.cov("bound", json!({"names": NAMES, "types": "4 (cache+build, cache+launch, launch-only, build-only)", "metadata types": ["Generic", "V1"], "strategy": "Keep/Update/Recreate/Err", "migration": "Recreate/Replace->strategy/Err", "create/update": "result alphabet + Err (+ trait default update)", "result alphabet": "6 representative (reduced) / 32 = 2 metadata x 4 env (None, all scopes incl. processes, build+launch+delim, process only) x 2 exec.d x 2 sbom (full)"}));
+    rep.cov("bound", json!({"names": NAMES, "types": "4 (cache+build, cache+launch, launch-only, build-only)", "metadata types": ["Generic", "V1"], "strategy": "Keep/Update/Recreate/Err", "migration": "Recreate/Replace->strategy/Err", "create/update": "result alphabet + Err (+ trait default update)", "result alphabet": "7 representative (reduced) / 72 = 3 metadata x 4 env (None, all scopes incl. processes, build+launch+delim, process only) x 2 exec.d x 3 sbom sets (none, cdx, spdx+syft) (full)"}));
     rep.cov("exhaustive", capped.is_none());
     if let Some(c) = capped {
         rep.cov("cap_hit", c);
